@@ -91,6 +91,30 @@ impl Property for C20 {
     type Sc = XargsScenario;
 
     fn generate(rng: &mut Rng, _tier: Tier) -> XargsScenario {
+        if rng.chance(1, 2500) {
+            // 65535 and more input lines: the 65536th gets its run like the first
+            let count = *rng.pick(&[65_535usize, 65_536, 65_537, 65_540]);
+            let mut input = Vec::with_capacity(count * 3);
+            for i in 0..count {
+                input.push(b'a' + (i % 26) as u8);
+                input.push(b'0' + (i % 10) as u8);
+                input.push(b'\n');
+            }
+            return XargsScenario {
+                opts: vec![Opt::ReplI("{}".into())],
+                cmd: vec!["CMD".into(), "x{}".into()],
+                input: B(input),
+                read_plan: vec![],
+                outcomes: vec![],
+                rlimit_stack: None,
+                env: None,
+                real: None,
+                note: "replace-mode sixteen-bit-counts".into(),
+                decoy_in_cwd: false,
+                echo_mode: false,
+                extra: Default::default(),
+            };
+        }
         let mut sc = XargsScenario {
             opts: vec![],
             cmd: vec!["CMD".into()],
